@@ -175,6 +175,13 @@ def snap(obj, path, out, memo, depth=0):
     if isinstance(obj, np.random.Generator):
         out[path] = ("gen", repr(obj.bit_generator.state))
         return
+    if isinstance(obj, np.random.RandomState):
+        st = obj.get_state()
+        out[path] = ("randomstate", st[0], hashlib.sha1(np.asarray(st[1]).tobytes()).hexdigest(), st[2], st[3], repr(st[4]))
+        return
+    if isinstance(obj, np.random.BitGenerator):
+        out[path] = ("bitgen", repr(obj.state))
+        return
     mod = type(obj).__module__ or ""
     if mod.startswith("virocon") and hasattr(obj, "__dict__"):
         out[path] = ("obj", type(obj).__name__, tuple(obj.__dict__.keys()))
@@ -415,7 +422,12 @@ class World:
         for mn, mod in sorted(sys.modules.items()):
             if mn == "virocon" or mn.startswith("virocon."):
                 for nm, val in sorted(vars(mod).items()):
-                    if not nm.startswith("__") and isinstance(val, (list, dict, set, np.ndarray)) and nm != "__all__":
+                    if nm.startswith("__"):
+                        continue
+                    is_virocon_obj = (type(val).__module__ or "").startswith("virocon") and hasattr(val, "__dict__") \
+                        and not isinstance(val, (type, types.ModuleType, types.FunctionType))
+                    if isinstance(val, (list, dict, set, bytearray, np.ndarray, np.random.RandomState, np.random.Generator,
+                                        np.random.BitGenerator)) or is_virocon_obj:
                         snap(val, "glob:%s.%s" % (mn, nm), s, {})
         st = np.random.get_state()
         s["rng"] = ("rng", hashlib.sha1(st[1].tobytes()).hexdigest(), st[2], st[3])
@@ -800,6 +812,16 @@ def run(ctx):
             names[1] = names[0]                     # two models from two fresh calls of the SAME getter
         ops = gen_history(rng, names, ctx.quick())
         hist.append({"models": names, "ops": ops, "seed": rng.randrange(1 << 20)})
+    # every run: IFORM and ISORM contours of a 3-D model computed twice in this process, interleaved with a fit of
+    # ANOTHER model and an evaluation; the repetitions must be bit-identical (NSphere's seeded point cloud included)
+    for other in ("custom3d", rng.choice(GETTERS)):
+        k3 = {"op": "eval", "k": 0, "dim2": False, "det": True, "alpha": 0.05}
+        mand = [dict(k3, entry="iform"), dict(k3, entry="isorm"),
+                {"op": "fit", "k": 1, "data": 9 + 1, "fd": None}, dict(k3, entry="pdf"),
+                dict(k3, entry="iform", repeat_of=0), dict(k3, entry="isorm", repeat_of=1)]
+        for i, o in enumerate(mand):
+            o["id"] = i
+        hist.insert(0, {"models": ["custom3d", other], "ops": mand, "seed": rng.randrange(1 << 20)})
     if not ctx.quick():
         # all interleavings of a 4-operation alphabet on two models of the same getter
         import itertools
@@ -883,10 +905,14 @@ def run(ctx):
     # ---- report (shrunk) violations
     reported = 0
     seen = set()
+    todo = []
     for hh, viol in suspects:
-        if not viol:
-            continue
-        sig, msg = viol[0]
+        clauses = set()
+        for sig, msg in viol:            # one report per distinct clause of a history
+            if sig["clause"] not in clauses:
+                clauses.add(sig["clause"])
+                todo.append((hh, sig, msg))
+    for hh, sig, msg in todo:
         key = (sig["clause"], sig.get("site"))
         if key in seen or reported >= 6:
             continue
